@@ -1,8 +1,42 @@
 (* C09Run.v — executable comparison of SigParse.v with what signature.Parse, Signature(),
    SignatureIDL() and Type() did on the strings the harness generated (qv C09). *)
-From QV Require Import Sig SigParse.
+From QV Require Import Sig SigParse Facts.
 From Coq Require Import String.
 Local Open Scope string_scope.
+
+(* ---------- which grammar init() builds (fact f_sig_grammar, regenerated from /repo) ---------- *)
+(* the pinned grammar: struct alternative before the tuple alternative on the same prefix
+   (model: decl / parse) *)
+Definition sig_grammar_pinned : list string :=
+  ["declarationType := OrdChoice(nil basicType() mapType arrayType structType tupleType)";
+   "arrayType := And(nodifyArrayType atom:[ declarationType atom:])";
+   "listType := Kleene(nil declarationType)";
+   "typeMemberList := Kleene(nil And(nodifyTypeMember atom:, typeName()))";
+   "tupleType := And(nodifyTupleType atom:( listType atom:))";
+   "structType := And(nodifyStrucType atom:( listType atom:) atom:< structName() typeMemberList atom:>)";
+   "mapType := And(nodifyMap atom:{ declarationType declarationType atom:})";
+   "typeSignature := declarationType"].
+(* the repaired grammar (design/C07.grammar.fix.diff): the prefix once, the struct definition
+   optional (model: decl_m / parse_m) *)
+Definition sig_grammar_merged : list string :=
+  ["declarationType := OrdChoice(nil basicType() mapType arrayType tupleOrStructType)";
+   "arrayType := And(nodifyArrayType atom:[ declarationType atom:])";
+   "listType := Kleene(nil declarationType)";
+   "typeMemberList := Kleene(nil And(nodifyTypeMember atom:, typeName()))";
+   "tupleOrStructType := And(nodifyTupleOrStruct atom:( listType atom:) Maybe(nil And(nil atom:< structName() typeMemberList atom:>)))";
+   "mapType := And(nodifyMap atom:{ declarationType declarationType atom:})";
+   "typeSignature := declarationType"].
+
+Fixpoint strs_eqb (a b : list string) : bool :=
+  match a, b with
+  | [], [] => true
+  | x :: a', y :: b' => String.eqb x y && strs_eqb a' b'
+  | _, _ => false
+  end.
+
+(* what the source text says: true = the repaired grammar (TieC09.tie_grammar_switch: then
+   f_sig_grammar is sig_grammar_merged, otherwise it is sig_grammar_pinned) *)
+Definition source_says_merged : bool := strs_eqb f_sig_grammar sig_grammar_merged.
 
 (* reflect kind tree, written by the harness in the same notation from reflect.Type *)
 Fixpoint shape_str (s : shape) : string :=
@@ -34,8 +68,10 @@ Record pcase := mk { pc_in : string; pc_ok : bool; pc_print : string; pc_idl : s
 Definition R (s : string) : pcase := mk s false "" "" "".
 Definition hx (h : string) : string := string_of_bytes (unhex h).
 
-Definition pcase_ok (cfg : sig_cfg) (c : pcase) : bool :=
-  match parse (pc_in c) with
+(* [merged]: which grammar the harness observed at work (growth of the work Parse does with the
+   nesting depth); the implementation is compared with parse_m then, with parse otherwise *)
+Definition pcase_ok (cfg : sig_cfg) (merged : bool) (c : pcase) : bool :=
+  match parse_g merged (pc_in c) with
   | POk t =>
       pc_ok c && String.eqb (print t) (pc_print c) && String.eqb (idl_name t) (pc_idl c) &&
       match go_type_result cfg t with
@@ -52,4 +88,8 @@ Fixpoint bad_idx {A} (f : A -> bool) (l : list A) (i : nat) : list nat :=
   | x :: r => if f x then bad_idx f r (S i) else i :: bad_idx f r (S i)
   end.
 
-Definition mismatches (cfg : sig_cfg) (cs : list pcase) : list nat := bad_idx (pcase_ok cfg) cs 0.
+(* index list of the cases on which model and implementation differ; second list: [0] when the
+   grammar observed by the harness contradicts the source text *)
+Definition mismatches (cfg : sig_cfg) (merged : bool) (cs : list pcase) : list nat * list nat :=
+  (bad_idx (pcase_ok cfg merged) cs 0,
+   if Bool.eqb merged source_says_merged then [] else [0%nat]).
